@@ -142,6 +142,15 @@ func c11Playlist(cs c11Case, st c11State, audio bool) string {
 // c11Expect runs the integer model of one rendition: the requests it must issue (in order) and how it ends.
 // end: "eos", "not-found", "too-late", "not-enough", "http" (history exhausted: the next poll gets 404).
 func c11Expect(cs c11Case, states []c11State, audio bool, base string) (reqs []string, end string) {
+	if cs.Style == "dirs" {
+		// every rendition lives in its own directory below the multivariant playlist: relative URIs resolve against
+		// the playlist that contains them
+		if audio {
+			base += "audio/"
+		} else {
+			base += "video/"
+		}
+	}
 	plURL := base + "stream.m3u8"
 	if audio {
 		plURL = base + "audio.m3u8"
@@ -228,10 +237,24 @@ func c11RunCase(c *vh.Ctx, cs c11Case) (sig, msg, outcome string) {
 	srv := &stubServer{}
 	srv.handler = func(n int, path, rawQuery string, req *http.Request) srvResp {
 		name := path[strings.LastIndexByte(path, '/')+1:]
+		if cs.Style == "dirs" && name != "index.m3u8" {
+			// strict about directories: /live/video/ holds the variant, /live/audio/ the rendition
+			wantDir := "/live/video/"
+			if name == "audio.m3u8" || strings.HasPrefix(name, "aud") {
+				wantDir = "/live/audio/"
+			}
+			if path != wantDir+name {
+				return srvResp{Status: 404}
+			}
+		}
 		switch {
 		case name == "index.m3u8":
-			return srvResp{Status: 200, Body: []byte("#EXTM3U\n#EXT-X-VERSION:4\n#EXT-X-MEDIA:TYPE=AUDIO,GROUP-ID=\"a\",NAME=\"x\",DEFAULT=YES,AUTOSELECT=YES,URI=\"audio.m3u8\"\n" +
-				"#EXT-X-STREAM-INF:BANDWIDTH=1000,CODECS=\"avc1.42c028,mp4a.40.2\",AUDIO=\"a\"\nstream.m3u8\n")}
+			vdir, adir := "", ""
+			if cs.Style == "dirs" {
+				vdir, adir = "video/", "audio/"
+			}
+			return srvResp{Status: 200, Body: []byte("#EXTM3U\n#EXT-X-VERSION:4\n#EXT-X-MEDIA:TYPE=AUDIO,GROUP-ID=\"a\",NAME=\"x\",DEFAULT=YES,AUTOSELECT=YES,URI=\"" + adir + "audio.m3u8\"\n" +
+				"#EXT-X-STREAM-INF:BANDWIDTH=1000,CODECS=\"avc1.42c028,mp4a.40.2\",AUDIO=\"a\"\n" + vdir + "stream.m3u8\n")}
 		case name == "stream.m3u8" || name == "audio.m3u8":
 			audio := name == "audio.m3u8"
 			states := vStates
@@ -407,6 +430,7 @@ func c11Groups(tier string) []c11Group {
 	for _, w := range []int{3, 6} {
 		for _, typ := range []string{"", "VOD"} {
 			out = append(out, c11Group{Window: w, Type: typ, Style: "rel", Multi: true})
+			out = append(out, c11Group{Window: w, Type: typ, Style: "dirs", Multi: true})
 		}
 	}
 	return out
